@@ -67,6 +67,13 @@ inductive HasTy (tbl : Table α) (S : List FnSig) (Γ : List GTy) (L : List PTy)
   | arg {a rest t ts} : t.isVal = true → HasTy tbl S Γ L a t → HasTy tbl S Γ L rest (.args ts) →
       HasTy tbl S Γ L (.arg a rest) (.args (t :: ts))
 
+/-- typing of the `where` clauses of a function: each right-hand side is typed with the parameters and the
+earlier clauses as locals; `ws` lists the types of the new locals -/
+inductive WheresOK (tbl : Table α) (S : List FnSig) (Γ : List GTy) : List PTy → List (PExpr α) → List PTy → Prop where
+  | nil (L : List PTy) : WheresOK tbl S Γ L [] []
+  | cons {L w t rest ws} : t.isVal = true → HasTy tbl S Γ L w t → WheresOK tbl S Γ (L ++ [t]) rest ws →
+      WheresOK tbl S Γ L (w :: rest) (t :: ws)
+
 /-- a run-time value agrees with a static type -/
 def VOK (tbl : Table α) : PVal α → PTy → Prop
   | .q x, .dim d => ValOK tbl x d
@@ -109,7 +116,8 @@ inductive ProgOK (tbl : Table α) : List FnSig → List GTy → List (PStmt α) 
   | letv {S Γ e rest S' Γ'} (T : GTy) : (∃ t, T t) → (∀ t, T t → t.isVal = true ∧ HasTy tbl S Γ [] e t) →
       ProgOK tbl S (Γ ++ [T]) rest S' Γ' → ProgOK tbl S Γ (.letv e :: rest) S' Γ'
   | fn {S Γ d rest S' Γ'} (sig : FnSig) :
-      (∀ ps r, sig.inst ps r → r.isVal = true ∧ d.arity = ps.length ∧ HasTy tbl (S ++ [sig]) Γ ps d.body r) →
+      (∀ ps r, sig.inst ps r → r.isVal = true ∧ d.arity = ps.length ∧
+        ∃ ws, WheresOK tbl (S ++ [sig]) Γ ps d.wheres ws ∧ HasTy tbl (S ++ [sig]) Γ (ps ++ ws) d.body r) →
       ProgOK tbl (S ++ [sig]) Γ rest S' Γ' → ProgOK tbl S Γ (.fn d :: rest) S' Γ'
 
 theorem envOK_get (tbl : Table α) : ∀ (env : List (PVal α)) (Γ : List PTy), EnvOK tbl env Γ →
